@@ -425,7 +425,8 @@ class Base:
         if isinstance(arg, int):
             return arg.to_bytes((arg.bit_length() + 15) // 8, "little", signed=True)
         if isinstance(arg, str):
-            return arg.encode()
+            # (a lone surrogate is a character of a Python string like any other)
+            return arg.encode("utf-8", "surrogatepass")
         if isinstance(arg, float):
             if math.isnan(arg):
                 return b"nan"
